@@ -422,6 +422,30 @@ def _agg_of(x, a, agg):
     return x.arr_rank(k), np.sort(flat)[::-1][k - 1]
 
 
+def run_aggbig(agg, n, shape):
+    """size ladder: an aggregate over n elements (vector) or over a 2 x n matrix"""
+    from BPTK_Py import Model
+    m = Model(starttime=0, stoptime=3, dt=1, name="arr")
+    vals = [1.0 + (((i * 7) % 11) - 5) * 0.01 for i in range(n)]
+    try:
+        x = m.constant("x")
+        if shape == "vec":
+            x.setup_vector(n, list(vals))
+            a = np.array(vals)
+        else:
+            x.setup_matrix([2, n], [list(vals), [v * 1.01 for v in vals]])
+            a = np.array([vals, [v * 1.01 for v in vals]])
+        g, w = _agg_of(x, a, agg)
+        h = m.converter("h")
+        h.equation = g
+        v = h(1)
+    except Exception as e:
+        return "rejected", "%s: %s" % (type(e).__name__, str(e)[:80])
+    if not core.close(v, float(w), rel=1e-9, ab=1e-9):
+        return "VIOL", {"clause": "agg-value/%d-elements" % n, "got": repr(v), "want": float(w)}
+    return "ok", None
+
+
 def run_aggop(agg, op, k1, left):
     """an aggregate of an array as the scalar operand of an element-wise equation over that array: x op agg(x) (left) or agg(x) op x"""
     from BPTK_Py import Model
@@ -506,6 +530,9 @@ def _work(part):
             if c[0] == "aggop":
                 out.append(run_aggop(c[1], c[2], tuple(c[3]), c[4]))
                 continue
+            if c[0] == "aggbig":
+                out.append(run_aggbig(c[1], c[2], c[3]))
+                continue
             if c[0] == "refused":
                 out.append(run_refused(c[1], tuple(c[2]), tuple(c[3])))
                 continue
@@ -560,6 +587,11 @@ def cases(tier):
                 if is_array(k1):
                     for left in (True, False):
                         out.append(["aggop", agg, op, list(k1), left])
+    # size ladder for the aggregates
+    for agg in ("sum", "prod", "mean", "median", "stddev", "rank1", "rank2"):
+        for n in (10, 40, 70, 130):
+            for shape in ("vec", "mat"):
+                out.append(["aggbig", agg, n, shape])
     # an accepted equation, then a refused assignment to the same element
     for op in ("+", "*", "dot"):
         for k1 in ks:
@@ -588,6 +620,8 @@ def run(ctx):
                     sig = "C10/%s/%s/%s x %s/%s%s" % (detail["clause"], c[1], "-".join(map(str, c[2])), "-".join(map(str, c[3])), c[4], "/tiny-values" if len(c) > 5 else "")
                 elif c[0] == "aggop":
                     sig = "C10/%s/%s/%s/%s/%s" % (detail["clause"], c[1], c[2], "-".join(map(str, c[3])), "array-left" if c[4] else "array-right")
+                elif c[0] == "aggbig":
+                    sig = "C10/%s/%s/%s" % (detail["clause"], c[1], c[3])
                 elif c[0] == "refused":
                     sig = "C10/%s/%s/%s then %s" % (detail["clause"], c[1], "-".join(map(str, c[2])), "-".join(map(str, c[3])))
                 else:
@@ -597,7 +631,7 @@ def run(ctx):
         "evaluations": len(cs), "distinct_nontrivial": counts["ok"],
         "rule": "all ordered pairs of operand kinds (number, scalar element, vectors 1..n, matrices r x c, named vectors/matrices "
                 "with equal and different names; n = %d) x {+,-,*,/,dot} x result holder {converter, flow, stock}; aggregates x "
-                "operand kinds x holders x operand holder {constant, converter}; chained operations (X op1 Y) op2 Z and Z op2 (X op1 Y) over 4 shapes x 6 third operands; an aggregate of X as scalar operand of X op agg(X) / agg(X) op X; "
+                "operand kinds x holders x operand holder {constant, converter}; chained operations (X op1 Y) op2 Z and Z op2 (X op1 Y) over 4 shapes x 6 third operands; aggregates over 10/40/70/130 elements; an aggregate of X as scalar operand of X op agg(X) / agg(X) op X; "
                 "an accepted equation followed by a refused assignment to the same element (the refusal leaves no trace); non-trivial = accepted and every entry compared with numpy" % (3 if ctx.tier == "quick" else 4),
         "outcomes": counts, "rejected_kinds": rej,
         "samples": cs[:2] + [cs[len(cs) // 3], cs[2 * len(cs) // 3]],
